@@ -701,13 +701,13 @@ let run_phy_line (line : string) : string =
         | ["rxpayload"; im; _len; bl] ->
           let n = int_of_string bl in
           let canary = List.init n (fun _ -> n_of_int 0xA5) in
-          let shown = ref canary in
+          let shown = ref [] in
           let r = (try phy_step c (get_rx_payload_126 (bool_of_tok im) (ni bl))
                          (fun (len, data) -> shown := data @ (List.filteri (fun i _ -> i >= List.length data) canary); "Ok(" ^ dec_of_n len ^ ")")
                    with Phy_panic s -> raise (Phy_panic s)) in
           (* result :: trace  ->  result buf=.. :: trace *)
           let i = (let rec find k = if k + 4 > String.length r then String.length r else if String.sub r k 4 = " :: " then k else find (k + 1) in find 0) in
-          String.sub r 0 i ^ " buf=" ^ hexs !shown ^ String.sub r i (String.length r - i)
+          String.sub r 0 i ^ " buf=" ^ (if String.length r >= 2 && String.sub r 0 2 = "Ok" then hexs !shown else "*") ^ String.sub r i (String.length r - i)
         | ["status"] -> phy_step c pkt_status_126 (fun (rssi, snr) -> Printf.sprintf "Ok(rssi=%s snr=%s)" (dec_of_zz rssi) (dec_of_zz snr))
         | ["rssi"] -> phy_step c get_rssi_126 (fun v -> "Ok(" ^ dec_of_zz v ^ ")")
         | ["cad"; sf] -> phy_step c (do_cad_126 g (ni sf)) unit_ok
@@ -747,11 +747,11 @@ let run_phy_line (line : string) : string =
         | ["rxpayload"; im; len; bl] ->
           let n = int_of_string bl in
           let canary = List.init n (fun _ -> n_of_int 0xA5) in
-          let shown = ref canary in
+          let shown = ref [] in
           let r = phy_step c (get_rx_payload_127 (bool_of_tok im) (ni len) (ni bl))
                     (fun (len, data) -> shown := data @ (List.filteri (fun i _ -> i >= List.length data) canary); "Ok(" ^ dec_of_n len ^ ")") in
           let i = (let rec find k = if k + 4 > String.length r then String.length r else if String.sub r k 4 = " :: " then k else find (k + 1) in find 0) in
-          String.sub r 0 i ^ " buf=" ^ hexs !shown ^ String.sub r i (String.length r - i)
+          String.sub r 0 i ^ " buf=" ^ (if String.length r >= 2 && String.sub r 0 2 = "Ok" then hexs !shown else "*") ^ String.sub r i (String.length r - i)
         | ["status"] -> phy_step c (pkt_status_127 h) (fun (rssi, snr) -> Printf.sprintf "Ok(rssi=%s snr=%s)" (dec_of_zz rssi) (dec_of_zz snr))
         | ["rssi"] -> phy_step c (get_rssi_127 h) (fun v -> "Ok(" ^ dec_of_zz v ^ ")")
         | ["cad"; _] -> phy_step c (do_cad_127 h) unit_ok
